@@ -36,20 +36,20 @@ var vfE3IdDocKeys = []string{"auth_required", "deflate", "deflate_level", "max_d
 func (g *vfE3Gen) identifyFields() string {
 	o := g.v.n.getOpts()
 	iv := func(lo, hi int64) string {
-		switch g.r.Intn(12) {
-		case 0:
+		switch g.r.Intn(24) {
+		case 0, 1:
 			return "-1"
-		case 1, 2:
+		case 2, 3:
 			return "0"
-		case 3:
+		case 4, 5:
 			return fmt.Sprint(lo)
-		case 4:
+		case 6, 7:
 			return fmt.Sprint(hi)
-		case 5:
+		case 8:
 			return fmt.Sprint(lo - 1)
-		case 6:
+		case 9:
 			return fmt.Sprint(hi + 1)
-		case 7:
+		case 10:
 			return g.pick("-2", "1", "63", "64", "65", "999", "1000", "1001", "9223372036854775807", "-9223372036854775808")
 		default:
 			return fmt.Sprint(lo + int64(g.r.Intn(int(hi-lo+1))))
@@ -65,7 +65,7 @@ func (g *vfE3Gen) identifyFields() string {
 	add(2, `"output_buffer_size":`+iv(64, o.MaxOutputBufferSize))
 	add(2, `"output_buffer_timeout":`+iv(int64(o.MinOutputBufferTimeout/1e6), int64(o.MaxOutputBufferTimeout/1e6)))
 	add(2, `"msg_timeout":`+iv(1000, int64(o.MaxMsgTimeout/1e6)))
-	add(2, `"sample_rate":`+g.pick("0", "1", "99", "100", "-1", "50", "98", "2147483647", "-2147483648"))
+	add(2, `"sample_rate":`+g.pick("0", "1", "99", "50", "98", "7", "33", "0", "1", "99", "100", "-1", "2147483647", "-2147483648"))
 	add(4, `"feature_negotiation":`+g.pick("true", "true", "true", "false"))
 	add(2, `"snappy":`+g.pick("true", "true", "false"))
 	add(2, `"deflate":`+g.pick("true", "true", "false"))
